@@ -246,6 +246,14 @@ def execute(case, ctx):
     verdict = 'accept'
     why = ''
     try:
+        # the label `fwd` and the second placement were laid out for the size of the variant the generator had in mind:
+        # when the statement is read by a variant of another size the layout (and every value derived from it) is off
+        for p in case['placements']:
+            if R.instruction_size(isa, case['mn'], p['ops']) != case['size_intended']:
+                return Outcome(classes=['skipped:variant-differs-from-intended'], evals=0)
+    except (R.Reject, R.Unspecified):
+        pass
+    try:
         for p in case['placements']:
             expected.append(R.encode_instruction(isa, case['mn'], p['ops'], resolve, p['base'] + 1))
     except R.Reject as r:
